@@ -279,6 +279,8 @@ def run(ctx):
                                   "non-trivial = at least one context switch")
     plans = [([1, 1], {}, 99, 4000 if ctx.quick else 10**6),
              ([2, 1], {}, 2, 700 if ctx.quick else 60000),
+             ([2, 1], {}, 3, 600 if ctx.quick else 60000),       # three preemptions: a sender slips in between another's release and its re-test of the queue
+             ([1, 2], {}, 3, 600 if ctx.quick else 60000),
              ([1, 1, 1], {}, 2, 500 if ctx.quick else 40000),
              ([1, 1], {0: 900}, 3, 500 if ctx.quick else 30000),
              ([2, 2], {}, 2 if ctx.quick else 3, 300 if ctx.quick else 60000),
